@@ -58,7 +58,8 @@ def kcTrace (phi : List (List Rat)) (order : Nat) : List Json :=
       some (Json.mkObj [("num", ratToJson num), ("beta", ratToJson bm),
         ("A", rats s.A), ("B", arr rats s.B)])
 
-def handle (entry : String) (j : Json) : Except String Json := do
+/-- one call of one of the modelled functions (the request of a single-call case) -/
+def handleCall (entry : String) (j : Json) : Except String Json := do
   match entry with
   | "acorr" =>
     let blk ← getList getRat (← field j "blk")
@@ -139,5 +140,19 @@ def handle (entry : String) (j : Json) : Except String Json := do
     pure <| Json.mkObj [("model", filtJson res), ("spec_model", specM), ("spec_impl", specI),
       ("trace", Json.arr tr)]
   | _ => throw s!"C10: unknown entry {entry}"
+
+/-- `history`: a sequence of calls; every call is answered by the model/spec of THAT CALL ALONE on
+    the argument values the request carries for it (the harness sends the pristine values the
+    caller holds at that moment): a result is a function of the argument values of its call, so the
+    payload of a history is the list of the single-call payloads, nothing is threaded between them. -/
+def handle (entry : String) (j : Json) : Except String Json := do
+  match entry with
+  | "history" =>
+    let calls ← getArr (← field j "calls")
+    let outs ← calls.mapM fun c => do
+      let e ← getStr (← field c "entry")
+      handleCall e c
+    pure <| Json.mkObj [("calls", Json.arr outs)]
+  | _ => handleCall entry j
 
 end ALV.Driver.C10
